@@ -20,6 +20,7 @@ import (
 	"github.com/janelia-flyem/dvid/datatype/common/labels"
 	"github.com/janelia-flyem/dvid/datatype/common/proto"
 	"github.com/janelia-flyem/dvid/dvid"
+	"github.com/janelia-flyem/dvid/dvid/verifhook"
 	"github.com/janelia-flyem/dvid/server"
 	"github.com/janelia-flyem/dvid/storage"
 )
@@ -143,6 +144,7 @@ func (d *Data) MergeLabels(v dvid.VersionID, op labels.MergeOp, info dvid.ModInf
 		return
 	}
 
+	verifhook.Yield("labelmap.MergeLabels.target")
 	// Write the final merged index and also record surface_mutid since surface changed.
 	if err = targetIdx.Add(mergeIdx, mutInfo); err != nil {
 		return
